@@ -191,6 +191,10 @@ func c08Context() *plush.Context {
 		s, err := help.Block()
 		return template.HTML("{" + s + "}"), err
 	})
+	c.Set("bwith", func(help plush.HelperContext) (template.HTML, error) {
+		s, err := help.BlockWith(help.New()) // the block runs in a context derived from the helper's
+		return template.HTML("{" + s + "}"), err
+	})
 	return c
 }
 
@@ -304,7 +308,7 @@ func init() {
 			return s
 		},
 		Run:  c08Run,
-		Rule: "iterables: []int, []string, []interface{}, [n]int, *[]int, *[n]int, arrays whose elements are all zero values, array literal, map[string]int, map[int]string, *map, hash literal, range/between/until, custom Iterator, groupBy, each at every length 0..3 (4 thorough); nil / nil slice / nil map / nil pointer to a slice, array, map or Iterator (render nothing), nil pointer to a struct, int or pointer and int/string/struct/func (must be an error). bodies: every sequence of <=3 (4 thorough) statements over 19 items (emit literal/value/key, if+break, if+continue, emit-then-break, nested-if break, bare break/continue, return, let+emit, inner loop plain/with break/with continue/silent, fn literal, inner loops over an Iterator / a slice / nil that re-use the outer loop's variable names) in two tag layouts (one statement per tag; adjacent code tags merged) and 4 placements. Oracle: a reference interpreter over the body gives the expected text for ordered iterables; for maps every iteration starts with a sentinel+key, the observed visiting order must be a permutation (prefix when a break fires) of the entries and the reference run in that order must reproduce the output exactly; maps are additionally rendered under every forced rotation of Go's map iteration order (runtime hook). Helper blocks: break / continue (bare, inside if, inside nested if with text) inside the block of a block helper called (emitting or silently, nested 1-2 deep) in the loop body, every hit position: the helper receives the block's text up to the control statement, the call's own result is kept and the loop is broken / continued there. Nil and falsy elements: []interface{} / [3]interface{} / map with nil elements in every position (bound as nil, also when an enclosing loop or variable uses the same names), Iterators and slices yielding \"\", false, 0 and empty HTML (visited like any other element). Reruns: loops whose iterable is a literal / range built from an outer loop variable or a parameter, run several times in one execution (nested 2-3 deep, in a function called repeatedly, over a slice modified between runs): every run visits its current iterable. Control-free bodies are also checked by unrolling (body rendered per element with let-bound loop variables). Non-trivial: length>=2 and body contains a control statement or inner loop.",
+		Rule: "iterables: []int, []string, []interface{}, [n]int, *[]int, *[n]int, arrays whose elements are all zero values, array literal, map[string]int, map[int]string, *map, hash literal, range/between/until, custom Iterator, groupBy, each at every length 0..3 (4 thorough); nil / nil slice / nil map / nil pointer to a slice, array, map or Iterator (render nothing), nil pointer to a struct, int or pointer and int/string/struct/func (must be an error). bodies: every sequence of <=3 (4 thorough) statements over 19 items (emit literal/value/key, if+break, if+continue, emit-then-break, nested-if break, bare break/continue, return, let+emit, inner loop plain/with break/with continue/silent, fn literal, inner loops over an Iterator / a slice / nil that re-use the outer loop's variable names) in two tag layouts (one statement per tag; adjacent code tags merged) and 4 placements. Oracle: a reference interpreter over the body gives the expected text for ordered iterables; for maps every iteration starts with a sentinel+key, the observed visiting order must be a permutation (prefix when a break fires) of the entries and the reference run in that order must reproduce the output exactly; maps are additionally rendered under every forced rotation of Go's map iteration order (runtime hook). Helper blocks: break / continue (bare, inside if, inside nested if with text) inside the block of a block helper (one that runs its block with Block(), one that uses BlockWith(help.New()), and the default block of contentOf) called (emitting or silently, nested 1-2 deep) in the loop body, every hit position: the helper receives the block's text up to the control statement, the call's own result is kept and the loop is broken / continued there. Nil and falsy elements: []interface{} / [3]interface{} / map with nil elements in every position (bound as nil, also when an enclosing loop or variable uses the same names), Iterators and slices yielding \"\", false, 0 and empty HTML (visited like any other element). Reruns: loops whose iterable is a literal / range built from an outer loop variable or a parameter, run several times in one execution (nested 2-3 deep, in a function called repeatedly, over a slice modified between runs): every run visits its current iterable; an iterator held in a variable and resumed by a later or nested loop after a break continues with the element after the last one visited. Control-free bodies are also checked by unrolling (body rendered per element with let-bound loop variables). Non-trivial: length>=2 and body contains a control statement or inner loop.",
 		Bound: func(th bool) string {
 			if th {
 				return "lengths 0..4, body sequences <=4"
@@ -609,6 +613,24 @@ func c08Special(t *engine.T) {
 		{"slice variable whose elements change between runs", `<% let a = [1, 2] %><%= for (r) in [0, 1] { %><%= for (y) in a { %><%= y %>,<% } %><% a[0] = 9 %>;<% } %>`, "1,2,;9,2,;"},
 		{"literal of three nested levels", `<%= for (x) in [1, 2] { %><%= for (y) in [x * 10, x * 10 + 1] { %><%= for (z) in [y, y + 100] { %><%= z %>,<% } %><% } %>;<% } %>`, "10,110,11,111,;20,120,21,121,;"},
 	}
+	// an iterator that outlives its loop: a loop that breaks has taken exactly the elements it visited
+	t.Case("rerun a broken-off loop leaves the rest of its iterator", true, func() (string, *engine.Fail) {
+		ctx := mk()
+		it := &countIter{max: 6}
+		ctx.Set("cit", it)
+		src := `<% let r = range(1, 6) %><%= for (v) in r { %><%= v %><% if (v == 2) { break } %><% } %>|<%= for (k, v) in r { %><%= k %>:<%= v %> <% } %>|` +
+			`<%= for (v) in cit { %><%= v %><% if (v == 2) { break } %><% } %>|<%= for (v) in cit { %><%= v %><% if (v == 4) { continue } %>.<% } %>|` +
+			`<% let s = until(6) %><%= for (a) in s { %><%= for (b) in s { %><%= a %>-<%= b %>;<% break %><% } %><% } %>`
+		want := "12|0:3 1:4 2:5 3:6 |12|3.45.6.|0-1;2-3;4-5;"
+		out, err := Render(src, ctx)
+		if err != nil || out != want {
+			return "", engine.Failf("mismatch", "expected %q, got %q / %v", want, out, err)
+		}
+		if it.n != 6 {
+			return "", engine.Failf("mismatch", "Next advanced the Go iterator to %d, expected 6", it.n)
+		}
+		return "rerun", nil
+	})
 	for _, c := range reruns {
 		c := c
 		t.Case("rerun "+c.name+" "+q(c.src), true, func() (string, *engine.Fail) {
@@ -702,85 +724,90 @@ func c08HelperBlocks(t *engine.T, mk func() *plush.Context) {
 			for _, ctlw := range []string{"break", "continue"} {
 				for depth := 1; depth <= 2; depth++ {
 					for _, silent := range []bool{false, true} {
-						for _, cond := range []string{"if", "nested-if", "bare"} {
-							if cond == "bare" && hitAt != 0 {
-								continue // an unconditional control statement fires at the first element
+						for _, hp := range []struct{ call, open, close string }{{"blk()", "{", "}"}, {"bwith()", "{", "}"}, {`contentOf("undefined-name")`, "", ""}} {
+							if hp.call != "blk()" && (depth == 2 || it.src == "it3") {
+								continue // the derived-context helpers: depth 1 over the slices
 							}
-							target := "none"
-							if hitAt >= 0 {
-								target = it.elems[hitAt]
-							}
-							var ctl string
-							switch cond {
-							case "if":
-								ctl = `<% if (v == ` + target + `) { ` + ctlw + ` } %>`
-							case "nested-if":
-								ctl = `<% if (true) { if (v == ` + target + `) { %>!<% ` + ctlw + ` } } %>`
-							case "bare":
-								ctl = `<% ` + ctlw + ` %>`
-							}
-							if target == "none" {
-								ctl = strings.Replace(ctl, "v == none", "v == 999", 1)
-							}
-							tag := "<%="
-							if silent {
-								tag = "<%"
-							}
-							block := `t` + ctl + `u`
-							call := tag + ` blk() { %>` + block + `<% } %>`
-							if depth == 2 {
-								call = tag + ` blk() { %>a` + tag + ` blk() { %>` + block + `<% } %>d<% } %>`
-							}
-							src := `<<%= for (v) in ` + it.src + ` { %>(<%= v %>` + call + `)<% } %>>`
-							// reference
-							var want strings.Builder
-							want.WriteString("<")
-							for i, e := range it.elems {
-								fires := i == hitAt || (cond == "bare")
-								want.WriteString("(" + e)
-								if !fires {
+							for _, cond := range []string{"if", "nested-if", "bare"} {
+								if cond == "bare" && hitAt != 0 {
+									continue // an unconditional control statement fires at the first element
+								}
+								target := "none"
+								if hitAt >= 0 {
+									target = it.elems[hitAt]
+								}
+								var ctl string
+								switch cond {
+								case "if":
+									ctl = `<% if (v == ` + target + `) { ` + ctlw + ` } %>`
+								case "nested-if":
+									ctl = `<% if (true) { if (v == ` + target + `) { %>!<% ` + ctlw + ` } } %>`
+								case "bare":
+									ctl = `<% ` + ctlw + ` %>`
+								}
+								if target == "none" {
+									ctl = strings.Replace(ctl, "v == none", "v == 999", 1)
+								}
+								tag := "<%="
+								if silent {
+									tag = "<%"
+								}
+								block := `t` + ctl + `u`
+								call := tag + ` ` + hp.call + ` { %>` + block + `<% } %>`
+								if depth == 2 {
+									call = tag + ` blk() { %>a` + tag + ` blk() { %>` + block + `<% } %>d<% } %>`
+								}
+								src := `<<%= for (v) in ` + it.src + ` { %>(<%= v %>` + call + `)<% } %>>`
+								// reference
+								var want strings.Builder
+								want.WriteString("<")
+								for i, e := range it.elems {
+									fires := i == hitAt || (cond == "bare")
+									want.WriteString("(" + e)
+									if !fires {
+										if !silent {
+											if depth == 2 {
+												want.WriteString("{a{tu}d}")
+											} else {
+												want.WriteString(hp.open + "tu" + hp.close)
+											}
+										}
+										want.WriteString(")")
+										continue
+									}
 									if !silent {
+										inner := "t"
+										if cond == "nested-if" {
+											inner = "t" // text inside a silent if is not output ... except what the control statement carries
+										}
 										if depth == 2 {
-											want.WriteString("{a{tu}d}")
+											want.WriteString("{a{" + inner + "}}")
 										} else {
-											want.WriteString("{tu}")
+											want.WriteString(hp.open + inner + hp.close)
 										}
 									}
-									want.WriteString(")")
-									continue
-								}
-								if !silent {
-									inner := "t"
-									if cond == "nested-if" {
-										inner = "t" // text inside a silent if is not output ... except what the control statement carries
-									}
-									if depth == 2 {
-										want.WriteString("{a{" + inner + "}}")
-									} else {
-										want.WriteString("{" + inner + "}")
+									if ctlw == "break" {
+										break
 									}
 								}
-								if ctlw == "break" {
-									break
-								}
+								want.WriteString(">")
+								expect := want.String()
+								nestedIf := cond == "nested-if"
+								t.Case(fmt.Sprintf("helper-block %s %s depth=%d silent=%v %s", hp.call, ctlw, depth, silent, q(src)), true, func() (string, *engine.Fail) {
+									out, err := Render(src, mk())
+									if err != nil {
+										return "", engine.Failf("mismatch", "expected %q, got error %v", expect, err)
+									}
+									if nestedIf {
+										// whether the text of the silent if that precedes the control statement is kept is left open
+										out = strings.Replace(out, "t!", "t", -1)
+									}
+									if out != expect {
+										return "", engine.Failf("mismatch", "expected %q, got %q", expect, out)
+									}
+									return "helper-block-" + ctlw, nil
+								})
 							}
-							want.WriteString(">")
-							expect := want.String()
-							nestedIf := cond == "nested-if"
-							t.Case(fmt.Sprintf("helper-block %s depth=%d silent=%v %s", ctlw, depth, silent, q(src)), true, func() (string, *engine.Fail) {
-								out, err := Render(src, mk())
-								if err != nil {
-									return "", engine.Failf("mismatch", "expected %q, got error %v", expect, err)
-								}
-								if nestedIf {
-									// whether the text of the silent if that precedes the control statement is kept is left open
-									out = strings.Replace(out, "t!", "t", -1)
-								}
-								if out != expect {
-									return "", engine.Failf("mismatch", "expected %q, got %q", expect, out)
-								}
-								return "helper-block-" + ctlw, nil
-							})
 						}
 					}
 				}
